@@ -116,6 +116,10 @@ m("c14_equal_split_when_unit", "C14", ND, "                q = engine.nodes.get_
 m("c14_ramp_first_link", "C14", ND, "        if self in net.origins_by_node:\n            origin = net.origins_by_node[self]", "        if self in net.origins_by_node and first(net.links)[0] is not self:\n            origin = net.origins_by_node[self]")
 m("c14_destination_name_sort", "C14", ND, "        rho_firsts = engine.vcat(\n            *(dlink.states[\"rho\"][-1] for _, _, dlink in links_down)\n        )", "        rho_firsts = engine.vcat(\n            *(dlink.states[\"rho\"][-1] for _, _, dlink in links_down if dlink.name <= max(x[2].name for x in links_down))\n        )[: 1 + (len({x[2].name for x in links_down}) > 1)]")
 
+# ---- cross-object state
+m("x_shared_graph_by_name", "C09 C08", N, "        self._graph = nx.DiGraph(name=name)", "        self._graph = _GRAPHS.setdefault(name, nx.DiGraph(name=name))\n\n    global _GRAPHS\n    _GRAPHS = {}")
+m("x_class_level_lookup_cache", "C08", N, "    @cached_property\n    def links_by_name(self) -> dict[str, Link[VarType]]:\n        return {  # type: ignore[var-annotated]\n            link.name: link for _, _, link in self.links\n        }", "    @property\n    def links_by_name(self) -> dict[str, Link[VarType]]:\n        k = len(self._graph.edges)\n        if _LBN.get('k') != k:\n            _LBN['k'] = k\n            _LBN['v'] = {link.name: link for _, _, link in self.links}\n        return _LBN['v']\n\n    global _LBN\n    _LBN = {}")
+
 def run(prop, src, runs):
     env = dict(os.environ, SYM_METANET_SRC=src)
     p = subprocess.run(["/venv/bin/python", "-m", "sim.check", prop, "--runs", str(runs), "--no-evidence"], cwd="/verif", env=env, capture_output=True, text=True, timeout=1800)
